@@ -128,6 +128,8 @@ def inject_degenerate(rng, pr, min_len):
         return pr, None
     kind = rng.choice(["flat", "zero_vol", "flat0", "mono"])
     length = rng.randint(min_len, max(min_len, min(n - 2, min_len * 3)))
+    if rng.random() < 0.4 and n - 2 > min_len + 25:
+        length = rng.randint(min_len + 25, min(n - 2, min_len + 90))  # long enough for 4-decimal Wilder averages to hit 0.0
     start = rng.randint(1, n - length)
     base = pr[start - 1][3]
     for i in range(start, start + length):
